@@ -81,12 +81,13 @@ func c16RunProviders(c *fw.Ctx) {
 		return authp.NewSingleFlightProvider(inner)
 	}
 	session := func(user string, withAccess, withRefresh bool) *sessions.SessionState {
-		s := &sessions.SessionState{Email: user + "@corp.test", User: user, LifetimeDeadline: future, RefreshDeadline: past, ValidDeadline: past}
+		login := strings.TrimSuffix(strings.TrimSuffix(user, "-stale-copy"), "-refreshed-copy")
+		s := &sessions.SessionState{Email: login + "@corp.test", User: login, LifetimeDeadline: future, RefreshDeadline: past, ValidDeadline: past}
 		if withAccess {
 			s.AccessToken = "access-of-" + user
 		}
 		if withRefresh {
-			s.RefreshToken = "refresh-of-" + user
+			s.RefreshToken = "refresh-of-" + login
 		}
 		return s
 	}
@@ -103,17 +104,33 @@ func c16RunProviders(c *fw.Ctx) {
 		}
 		return provObs{res, fmt.Sprintf("access=%s refresh-token=%s refresh-deadline=%+d", s.AccessToken, s.RefreshToken, int64(s.RefreshDeadline.Sub(harness.T0)/time.Second))}
 	}
+	// who calls: two different users, or two copies of ONE login (a stale cookie next to a refreshed one: the
+	// same refresh token, different access tokens)
+	users := []string{"alice", "bob"}
+	identical := map[string]bool{} // identity-provider requests (endpoint, token) seen twice in flight at once
 	execute := func(x *explore.Exec, kind, op string, withAccess, withRefresh bool, only string) (map[string]provObs, *sched.Sched) {
 		out := map[string]provObs{}
+		for k := range identical {
+			delete(identical, k)
+		}
 		p := build(kind) // a fresh provider and wrapper for every execution
+		inflight := map[string]int{}
 		s := sched.Run(x, func(s *sched.Sched) {}, func(s *sched.Sched) {
 			idp.Answer = func(cl *harness.IdPCall) harness.AuthAnswer {
+				// the identity provider is "working on" a request from the moment it arrives until it answers
+				tok := cl.Form.Get("token") + cl.Form.Get("access_token") + cl.Form.Get("refresh_token") + strings.TrimPrefix(cl.Header.Get("Authorization"), "Bearer ")
+				key := cl.Endpoint + " " + tok
+				inflight[key]++
+				if inflight[key] > 1 && tok != "" { // (a request that names no token has no subject to be identical in)
+					identical[key] = true
+				}
 				if !s.IsAborting() {
 					s.Point("idp:" + cl.Endpoint)
 				}
+				inflight[key]--
 				return answer(cl)
 			}
-			for _, u := range []string{"alice", "bob"} {
+			for _, u := range users {
 				if only != "" && u != only {
 					continue
 				}
@@ -124,59 +141,75 @@ func c16RunProviders(c *fw.Ctx) {
 		idp.Answer = answer
 		return out, s
 	}
-	for _, kind := range []string{"google", "okta"} {
-		for _, op := range []string{"RefreshSessionIfNeeded", "ValidateSessionState", "Revoke"} {
-			// (every session a login produces holds an access token — Okta's Redeem refuses an answer without one
-			// and the wrapper keys validation and revocation by it — so the shapes differ in the refresh token only)
-			for shape := 0; shape < 2; shape++ {
-				kind, op, withAccess, withRefresh := kind, op, true, shape == 0
-				name := fmt.Sprintf("provider-auth/%s/%s/access-token=%v,refresh-token=%v", kind, op, withAccess, withRefresh)
-				var solo map[string]provObs
-				drive(c, name, -1, func(x *explore.Exec, owned bool) {
-					if solo == nil {
-						solo = map[string]provObs{}
-						for _, u := range []string{"alice", "bob"} {
-							o, s := execute(explore.NewExec(nil), kind, op, withAccess, withRefresh, u)
-							if s.Panic != nil || s.Deadlock {
-								panic(explore.HarnessError{Msg: fmt.Sprintf("%s: the solo call of %s failed: panic=%v deadlock=%v", name, u, s.Panic, s.Deadlock)})
-							}
-							solo[u] = o[u]
-						}
-					}
-					got, s := execute(x, kind, op, withAccess, withRefresh, "")
-					if he, ok := s.Panic.(explore.HarnessError); ok {
-						panic(he)
-					}
-					if !owned {
-						return
-					}
-					c.Res.Transitions += int64(s.Steps)
-					c.Res.Validated++
-					c.Res.Outcome(fmt.Sprintf("%s|%v|%v", name, got["alice"], got["bob"]))
-					detail := map[string]interface{}{"threads_and_schedule": s.Describe(), "alone": solo, "here": got}
-					viol := func(key, what string) {
-						c.Res.Violate(fw.Violation{Property: "C16", Key: "C16/provider-auth/" + key, What: what, Scenario: name, Choices: x.Choices(), Detail: detail})
-					}
-					switch {
-					case s.Panic != nil:
-						viol("panic/"+kind+"/"+op, fmt.Sprintf("panic: %v", s.Panic))
-						return
-					case s.Deadlock:
-						viol("deadlock/"+kind+"/"+op, fmt.Sprintf("deadlock: %v never return", s.Blocked))
-						return
-					}
-					for _, u := range []string{"alice", "bob"} {
-						if got[u] == solo[u] {
-							c.Res.Count("positive_provider_calls_ending_as_when_alone", 1)
+	for _, pair := range [][]string{{"alice", "bob"}, {"alice-stale-copy", "alice-refreshed-copy"}} {
+		pair := pair
+		for _, kind := range []string{"google", "okta"} {
+			for _, op := range []string{"RefreshSessionIfNeeded", "ValidateSessionState", "Revoke"} {
+				if pair[0] != "alice" && op == "RefreshSessionIfNeeded" {
+					continue // (two copies refreshing the one grant at once: the follower's session is the known finding W2)
+				}
+				// (every session a login produces holds an access token — Okta's Redeem refuses an answer without one
+				// and the wrapper keys validation and revocation by it — so the shapes differ in the refresh token only)
+				for shape := 0; shape < 2; shape++ {
+					kind, op, withAccess, withRefresh := kind, op, true, shape == 0
+					name := fmt.Sprintf("provider-auth/%s/%s/access-token=%v,refresh-token=%v", kind, op, withAccess, withRefresh)
+					if pair[0] != "alice" {
+						if !withRefresh {
 							continue
 						}
-						viol(fmt.Sprintf("differs-from-calling-alone/%s/%s/access-token=%v,refresh-token=%v/%s", kind, op, withAccess, withRefresh, u),
-							fmt.Sprintf("%s's %s ends differently next to the other user's call: alone %v, here %v", u, op, solo[u], got[u]))
+						name = fmt.Sprintf("provider-auth/%s/%s/two-copies-of-one-login", kind, op)
 					}
-					if c.Replay != nil {
-						c.Res.Note("%v", detail)
-					}
-				})
+					var solo map[string]provObs
+					drive(c, name, -1, func(x *explore.Exec, owned bool) {
+						users = pair
+						if solo == nil {
+							solo = map[string]provObs{}
+							for _, u := range pair {
+								o, s := execute(explore.NewExec(nil), kind, op, withAccess, withRefresh, u)
+								if s.Panic != nil || s.Deadlock {
+									panic(explore.HarnessError{Msg: fmt.Sprintf("%s: the solo call of %s failed: panic=%v deadlock=%v", name, u, s.Panic, s.Deadlock)})
+								}
+								solo[u] = o[u]
+							}
+						}
+						got, s := execute(x, kind, op, withAccess, withRefresh, "")
+						if he, ok := s.Panic.(explore.HarnessError); ok {
+							panic(he)
+						}
+						if !owned {
+							return
+						}
+						c.Res.Transitions += int64(s.Steps)
+						c.Res.Validated++
+						c.Res.Outcome(fmt.Sprintf("%s|%v|%v", name, got[pair[0]], got[pair[1]]))
+						detail := map[string]interface{}{"threads_and_schedule": s.Describe(), "alone": solo, "here": got}
+						viol := func(key, what string) {
+							c.Res.Violate(fw.Violation{Property: "C16", Key: "C16/provider-auth/" + key, What: what, Scenario: name, Choices: x.Choices(), Detail: detail})
+						}
+						switch {
+						case s.Panic != nil:
+							viol("panic/"+kind+"/"+op, fmt.Sprintf("panic: %v", s.Panic))
+							return
+						case s.Deadlock:
+							viol("deadlock/"+kind+"/"+op, fmt.Sprintf("deadlock: %v never return", s.Blocked))
+							return
+						}
+						for k := range identical {
+							viol(fmt.Sprintf("identical-calls-in-flight/%s/%s", kind, op), fmt.Sprintf("the identity provider was working on two identical requests at the same moment: %s", k))
+						}
+						for _, u := range pair {
+							if got[u] == solo[u] {
+								c.Res.Count("positive_provider_calls_ending_as_when_alone", 1)
+								continue
+							}
+							viol(fmt.Sprintf("differs-from-calling-alone/%s/%s/access-token=%v,refresh-token=%v/%s", kind, op, withAccess, withRefresh, u),
+								fmt.Sprintf("%s's %s ends differently next to the other user's call: alone %v, here %v", u, op, solo[u], got[u]))
+						}
+						if c.Replay != nil {
+							c.Res.Note("%v", detail)
+						}
+					})
+				}
 			}
 		}
 	}
